@@ -632,8 +632,23 @@ func padded(c *mon.Case) {
 	if near && padding >= 0.5 {
 		return
 	}
+	// at a tie the float bound of a descendant (its uv bound + padding, rounded) may touch the rectangle while
+	// the exact sum does not: only descendants whose exactly padded bound meets the rectangle are asserted
+	meetsExactly := func(d s2.CellID) bool {
+		if !near {
+			return true
+		}
+		uv := s2.CellFromCellID(d).BoundUV()
+		pad := ref.F(padding)
+		axis := func(lo, hi, rlo, rhi float64) bool {
+			l := new(big.Float).SetPrec(ref.Prec).Sub(ref.F(lo), pad)
+			h := new(big.Float).SetPrec(ref.Prec).Add(ref.F(hi), pad)
+			return l.Cmp(ref.F(rhi)) <= 0 && h.Cmp(ref.F(rlo)) >= 0
+		}
+		return axis(uv.X.Lo, uv.X.Hi, rect.X.Lo, rect.X.Hi) && axis(uv.Y.Lo, uv.Y.Hi, rect.Y.Lo, rect.Y.Hi)
+	}
 	for _, d := range D {
-		if !got.Contains(d) && !(len(D) == 1 && d.Contains(got)) {
+		if !got.Contains(d) && !(len(D) == 1 && d.Contains(got)) && meetsExactly(d) {
 			c.Violation("PaddedCell/ShrinkToFit/misses-descendant/wrong-answer", fmt.Sprintf("ShrinkToFit returned %s, which does not contain descendant %s whose padded bound meets the rectangle", got.ToToken(), d.ToToken()), sd)
 			return
 		}
